@@ -70,6 +70,14 @@ TEMPLATES += ["{ ({ RdV = 1; ReV = 2; RxV = 3; }); }", "{ if (RsV) ({ RdV = 1; R
               "{ int32_t cast = RsV; RddV = cast; }", "{ int32_t h_tmp = RsV; RdV = h_tmp++; ReV = h_tmp; }",
               "{ uint32_t ml = RsV; RdV = (int32_t) mem_load_s8(ml); }", "{ uint32_t ms = RsV; mem_store_u8(ms, RtV); RdV = ms; }"]
 
+# names the compiler derives from operand text plus a running id must not collide with a user's variable
+TEMPLATES += [f"{{ uint32_t Rs_{k} = 64; RdV = (int32_t) mem_load_s32(RsV); ReV = (int32_t) mem_load_s32(Rs_{k}); }}" for k in range(1, 9)] + \
+             [f"{{ uint32_t Rs_{k} = 64; if (RtV) {{ JUMP(RsV); }} else {{ JUMP(Rs_{k}); }} }}" for k in range(1, 12)] + \
+             ["{ uint32_t const_5 = 7; RdV = 5; ReV = const_5; }", "{ uint32_t const_1 = 9; RdV = RsV + 1; ReV = const_1; }",
+              "{ ({ RdV = 1; ReV = 2; ({ RxV = 3; RxV += 4; RxV += 5; }); }); }",
+              "{ if (RsV) ({ RdV = 1; ReV = 2; ({ RxV = 3; RxV += 4; RxV += 5; }); }); }",
+              "{ RdV = RxV += RsV; }", "{ RdV = RxV = RxV + 1; }", "{ int32_t a; a = RxV -= RsV; RdV = a + RxV; }"]
+
 BASE_FEATURES = gen.SAFE_CORE
 STATIC_RENAMES = ["seq", "branch", "empty", "nop", "cond", "jump", "cast", "seq_then", "seq_else", "h_tmp", "op", "tmp",
                   "ml", "ms", "imm_assign", "gcc_expr", "set_return_val", "instruction_sequence", "call", "loop", "val"]
